@@ -15,9 +15,11 @@ import re
 import resource
 import signal
 import subprocess
+import time
 
 from .. import common
 from ..common import log
+from . import c03_asm
 
 PROP = "C03"
 INC = os.path.join(common.REPO, "include")
@@ -62,7 +64,7 @@ class Outcome:
 SAN_RE = re.compile(rb"ERROR: AddressSanitizer|runtime error:|SUMMARY: \w+Sanitizer")
 
 
-def run_limited(bdir, tool, args, cwd, tag, cpu_s, fsize_mb=24, stdin_data=None, env=None):
+def run_limited(bdir, tool, args, cwd, tag, cpu_s, fsize_mb=24, stdin_data=None, env=None, out_max=4000):
     so = os.path.join(cwd, tag + ".stdout")
     se = os.path.join(cwd, tag + ".stderr")
     e = dict(os.environ)
@@ -92,7 +94,7 @@ def run_limited(bdir, tool, args, cwd, tag, cpu_s, fsize_mb=24, stdin_data=None,
     with open(se, "rb") as f:
         err = f.read(200000)
     with open(so, "rb") as f:
-        out = f.read(4000)
+        out = f.read(out_max)
     for fn in (so, se):
         try:
             os.unlink(fn)
@@ -376,6 +378,11 @@ ASL_CLASSES = [
     ("function-call-more-than-3-args", rb"\w\s*\((?:[^()\n]|\([^()\n]*\))*,(?:[^()\n]|\([^()\n]*\))*,(?:[^()\n]|\([^()\n]*\))*,", {"san", "sig11", "sig6"}, rb"EvalStrExpression"),
     ("symbol-name-closing-bracket-without-opening", rb"\]", {"san", "sig11"}, rb"GetSymSection"),
     ("source-utf8-lead-byte-overread", rb"[\xc0-\xff]", {"san"}, rb"in NLS_UpString"),
+    # a string value that went through PUSHV (a symbol defined with a string, then PUSHV): shared heap buffer
+    ("pushv-string-value-shared-buffer", rb"(?is)\b(?:set|equ)\s+[\"'].*\bpushv\b", {"san", "sig6", "sig11"}, rb"as_nonz_dynstr|double-free|heap-use-after-free"),
+    ("binclude-word-granular-segment", rb"(?i)\bbinclude\b", {"san"}, rb"in CodeBINCLUDE"),
+    ("include-directory-hangs", rb"(?im)^\s*include\s+\"?\.\.?\"?\s*$", {"timeout"}, None),
+    ("c3x-general-instruction-more-than-3-operands", rb"(?i)\bcpu\s+320c[34]", {"san"}, rb"code3203x\.c:\d+:\d+: runtime error: index \d+ out of bounds|in DecodeGen"),
     ("upcase-table-negative-index", rb"[\x80-\xff]", {"san"}, rb"asmsub\.c:\d+:\d+: runtime error: index -\d+ out of bounds"),
 ]
 
@@ -727,6 +734,21 @@ def run(args):
                                       source=c["src"].decode("latin-1")[:3000], flags=c.get("flags", []), incdir=c.get("incdir"),
                                       stderr=oc.err.decode("latin-1")[-1500:]))
 
+        # ------------------------------------------------------------------ asl half with a model: PUSHV/POPV histories, BINCLUDE / INCLUDE
+        # of generated files (vlib/props/c03_asm.py, driver modes c03stk / c03bin)
+        t_ap = time.time()
+        ap = c03_asm.run_part(args, flavours, wd, lambda *a, **k: run_limited(*a, out_max=60000, **k), parallel, drv_ok,
+                              sigfn=lambda text, oc: asl_sig(dict(src=text), oc))
+        spec_fail += ap["spec_fail"]
+        corr_fail += ap["corr_fail"]
+        proof_problems += ap["problems"]
+        distinct |= ap["distinct"]
+        dist["stacks_binclude"] = ap["dist"]
+        dist["stacks_binclude_wall_s"] = round(time.time() - t_ap, 2)
+        dist["asl_runs"] += ap["evaluations"]
+        samples += ap["samples"]
+        notes += ap["notes"]
+
         # ------------------------------------------------------------------ utilities (model + spec)
         guard, guard_res = probe_gran_guard(bdir, wd)
         notes.append("granularity-0 guard probe (witness file, per tool): %s -> model flags granCheck=%s" % (guard_res, guard))
@@ -840,12 +862,18 @@ def run(args):
     res.coverage = common.proof_coverage(audit, PROP, [
         "translate/tables.py (file-format constants, Granularity table, family table, SegCount)",
         "correspondence: real plist/pbind/p2bin/p2hex exit status vs Model/PFileRead classification (differential test)",
+        "correspondence: real asl vs Model/SymStack (PUSHV/POPV histories: exit status + printed events, `asl -n -E !1`) and vs Model/BInclude "
+        "(exit status, error numbers, code-file bytes), SPEC judgement by Spec/SymStack + Spec/BInclude on the real output (driver modes c03stk / c03bin)",
         "EXPLORATION (not proof): asl/dasl robustness is only searched with generated inputs%s" % (" under clang-14 ASan+UBSan" if tier == "thorough" else " (plain build; sanitizer build in the thorough tier)")])
     res.coverage.update(
         partial=True,
         evaluations=dist["asl_runs"] + dist["tool_runs"], distinct_nontrivial=len(distinct),
         rule="one evaluation = one process run (asl on a source / a utility on a code file); distinct = distinct input bytes (per tool); "
-             "grammar = %d global pseudo-instruction templates x boundary arguments x CPU x label; files = all truncations + field edits + bit flips of %d base files + boundary + random" % (len(PSEUDO), 8),
+             "grammar = %d global pseudo-instruction templates x boundary arguments x CPU x label; files = all truncations + field edits + bit flips of %d base files + boundary + random; "
+             "histories = generated PUSHV/POPV programs (1-3 named stacks + default stack, variables / constants / undefined symbols, refused pops, pops from empty and "
+             "non-existent stacks, REPT / IF / macro wrappers, case-sensitive runs), distinct by source text; BINCLUDE = file sizes 0/1/255/256/257/1000 x offset class "
+             "{none, 0, inside, = size, > size, negative} x length class {none, 0, inside, to the end, beyond, negative, huge} x target / segment / origin / wrapper, plus "
+             "multi-statement programs inside their files (bytes compared) and mixed ones; INCLUDE of empty / binary / unterminated / self-including files and of path oddities" % (len(PSEUDO), 8),
         samples=samples, distribution=dist, builds=[f for f, _ in flavours])
     res.notes += notes
     res.assumptions = ["termination is claimed only for inputs without WHILE and without self-recursive macros; CPU limit %d s per asl run, %d s per utility run, output limit 8-64 MiB" % (cpu_asl, cpu_tool),
@@ -860,6 +888,8 @@ def replay(args):
     flavour = d.get("build", "hooks")
     bdir = common.repo_build(flavour)
     with common.Workdir("c03r") as wd:
+        if d.get("part") == "c03asm":
+            return c03_asm.replay_case(d, bdir, wd, lambda *a, **k: run_limited(*a, out_max=60000, **k))
         if "source" in d:
             c = dict(src=d["source"].encode("latin-1"), flags=d.get("flags", []), incdir=d.get("incdir"))
             oc = run_asl_case(bdir, wd, 0, c, 10)
